@@ -363,7 +363,7 @@ func (e *exprCtx) expr(v ssa.Value) string {
 			op = flipOp(op)
 		case token.EQL, token.NEQ, token.ADD, token.MUL, token.AND, token.OR, token.XOR:
 			if op != token.ADD || !isStringT(x.Type()) {
-				if b < a {
+				if sortKey(b) < sortKey(a) {
 					a, b = b, a
 				}
 			}
@@ -397,7 +397,7 @@ func (e *exprCtx) expr(v ssa.Value) string {
 			parts = append(parts, e.expr(ed))
 		}
 		delete(e.seen, x)
-		sort.Strings(parts)
+		sort.Slice(parts, func(i, j int) bool { return sortKey(parts[i]) < sortKey(parts[j]) })
 		parts = uniq(parts)
 		if len(parts) == 1 {
 			return parts[0]
@@ -1430,8 +1430,11 @@ func isInitFn(f *ssa.Function) bool {
 
 // eqs renders an equality the way Expr does (operands in lexical order).
 func eqs(a, b string) string {
-	if b < a {
+	if sortKey(b) < sortKey(a) {
 		a, b = b, a
 	}
 	return "(" + a + " == " + b + ")"
 }
+
+// sortKey: operand ordering must not depend on which copy (fork or upstream reference) a name belongs to.
+func sortKey(s string) string { return normRef(s) }
